@@ -566,3 +566,31 @@ func (d *Disk) LastOpStep(op, prefix string) int {
 	}
 	return last
 }
+
+// LastPutStep returns the scheduler step of the last put of key (-1: none).
+func (d *Disk) LastPutStep(key string) int {
+	d.mu.Lock()
+	defer d.mu.Unlock()
+	last := -1
+	for _, m := range d.Log {
+		for _, w := range m.Writes {
+			if w.Key == key && w.Val != nil {
+				last = m.Step
+			}
+		}
+	}
+	return last
+}
+
+// OpSteps returns the scheduler steps of all recorded operations `op` on exactly `key`.
+func (d *Disk) OpSteps(op, key string) []int {
+	d.mu.Lock()
+	defer d.mu.Unlock()
+	var out []int
+	for _, o := range d.Ops {
+		if o.Op == op && o.Key == key {
+			out = append(out, o.Step)
+		}
+	}
+	return out
+}
